@@ -10,8 +10,31 @@ import time
 CVC5 = "/usr/bin/cvc5"
 
 
-def cvc5_check(smt2_text, timeout_s=10, want_model=False):
-    """returns ('sat'|'unsat'|'unknown', seconds)"""
+def parse_cvc5_model(text):
+    """{name: python value} for Int / Bool / String constants of a cvc5 (get-model) answer"""
+    out = {}
+    for m in re.finditer(r"\(define-fun (\|[^|]*\||\S+) \(\) (\S+|\([^()]*\)) (.*)\)\s*$", text, re.M):
+        name, sort, val = m.group(1).strip("|"), m.group(2), m.group(3).strip()
+        if sort == "Int":
+            mm = re.fullmatch(r"\(- (\d+)\)", val)
+            try:
+                out[name] = -int(mm.group(1)) if mm else int(val)
+            except ValueError:
+                out[name] = val
+        elif sort == "Bool":
+            out[name] = val == "true"
+        elif sort == "String":
+            out[name] = val[1:-1].replace('""', '"') if val.startswith('"') else val
+        else:
+            out[name] = val[:300]
+    return out
+
+
+LAST_MODEL = [None]
+
+
+def cvc5_check(smt2_text, timeout_s=10, want_model=True):
+    """returns ('sat'|'unsat'|'unknown', seconds); the model of a sat answer is left in LAST_MODEL[0]"""
     if not os.path.exists(CVC5):
         return "unknown", 0.0
     text = smt2_text
@@ -21,6 +44,9 @@ def cvc5_check(smt2_text, timeout_s=10, want_model=False):
     text = re.sub(r"\(set-info [^\n]*\)\n", "", text)
     if "(check-sat)" not in text:
         text += "\n(check-sat)\n"
+    if want_model:
+        text = "(set-option :produce-models true)\n" + text + "\n(get-model)\n"
+    LAST_MODEL[0] = None
     t0 = time.time()
     with tempfile.NamedTemporaryFile("w", suffix=".smt2", delete=False) as f:
         f.write(text)
@@ -36,6 +62,11 @@ def cvc5_check(smt2_text, timeout_s=10, want_model=False):
         r = out[0].strip() if out else "unknown"
         if r not in ("sat", "unsat"):
             r = "unknown"
+        if r == "sat" and want_model:
+            try:
+                LAST_MODEL[0] = parse_cvc5_model(p.stdout)
+            except Exception:
+                LAST_MODEL[0] = None
     except subprocess.TimeoutExpired:
         r = "unknown"
     finally:
